@@ -22,6 +22,8 @@ def run(res, tier, replay=None):
         "member it describes (traced words are exactly the sexp fields; untraced sexp fields must be weak or listed). "
         "R3a/R3b (under-approximating, must-allocate semantics): an object returned by a function all of whose returns are fresh allocations is never (a) kept only in an unrooted local across a call that allocates on every path and used afterwards, nor (b) passed directly to a parameter that its callee reads after such a call - under the property's own quantifier (a collection before every allocation) each report is a reachable reclamation. R6: every object word emitted into bytecode with sexp_emit_word is, on every path, also pushed on the literal list by bytecode_preserve with the same expression. R4: in every VM case, sexp_context_top(ctx) has been set to at least the current top (tracked as published-minus-top through pushes/pops) before each call that may reach the allocator. Not decided: schedule independence of results as such, embedder roots, Boehm/conservative configurations.")
     if tier == "thorough":
+        # C02 quantifies over configurations: re-run the structural rules on the core units under each
+        common.config_matrix(res, lambda p, r: (c02.run_r1(p, r), f3.r5_type_table(p, r), c02.run_r6(p, r)), violation=True)
         common.thorough_mutations(res, "C02", {
             "R1": lambda p, r: c02.run_r1(p, r),
             "R5": lambda p, r: f3.r5_type_table(p, r),
